@@ -174,7 +174,7 @@ pub fn generate(property: &str, seed: u64, tier: Tier) -> Plan {
         for k in 0..n_x {
             let at = 2 + ur.below(steps.len() as u64 - 1) as usize;
             steps.insert(at, json!({"op":"xcreate","dev":ur.below(n_dev),"slot":ur.below(N_SLOTS),"folder":*ur.pick(&[0u64, 0, 4]),
-                "val":val + 700 + k,"size":ur.below(5),"label":ur.below(3),"tags":ur.below(8),"fav":false}));
+                "val":val + 700 + k,"size":ur.below(5),"label":ur.below(3),"tags":ur.below(8),"fav":false,"attach":ur.below(3)}));
         }
         let n_up = ur.range(1, 3);
         for _ in 0..n_up {
@@ -506,6 +506,7 @@ pub async fn execute(plan: Plan, dir: &Path) -> RunOutcome {
         tokio::task::yield_now().await;
         for i in 1..n_dev {
             let dst = dir.join(format!("d{i}"));
+            wait_sqlite_closed(&src);
             if let Err(e) = copy_dir_all(&src, &dst) {
                 harness_err!(rec, plan, format!("copy device: {e}"));
             }
